@@ -74,6 +74,12 @@ def run(ctx, fa, own):
                 "references, namespaces (raw or pre-parsed); 1-3 data per schema written back to back; boundary pools for ints, floats, strings, "
                 "collections; non-trivial = schema has >= 2 nodes and some encoding has >= 2 bytes; distinct by SHA-256 of the case")
     core.judge_cases(ctx, cases, "rt", own, nontrivial_fn=nontrivial, describe=describe)
+    if own == ("C02.",):
+        # the encoder as driven by the container writer: block payloads of Writer-object sessions (failed writes in between, copied blocks)
+        from . import p_file
+        fcases = [c for c in p_file.make_cases(ctx, fa, 500 if ctx.quick() else 4000, label="c02files") if "session" in c or "append_at" in c]
+        ctx.extra["container_payload_files"] = len(fcases)
+        core.judge_cases(ctx, fcases, "payload", own, nontrivial_fn=p_file.nontrivial, describe=p_file.describe)
     for c in cases[:3]:
         ctx.sample({"schema": proj.unpj(c["schema"]), "data": [repr(proj.unpv(d))[:120] for d in c["data"]],
                     "bytes": [bytes(w["bytes"]).hex()[:80] if w["ok"] else w["exc"] for w in c["writes"]]})
